@@ -129,6 +129,7 @@ class VK:
         self.table = None
         self.clock = None
         self.on_access = None    # optional hook(vk, idx, kind, path)
+        self.rdev = {}           # path -> st_rdev reported for a redirected path (fake device nodes)
         self.count_only = None   # optional predicate(kind, path): only those accesses get an index
 
     # -- wiring ---------------------------------------------------------------------------
@@ -257,7 +258,12 @@ def _v_stat_common(kind, realfn, path, follow, kw):
             if r is not None:
                 vk.access(kind, p)
                 if r[0] == "r":
-                    return realfn(r[1], **kw)
+                    st = realfn(r[1], **kw)
+                    rdev = vk.rdev.get(p)
+                    if rdev is not None:
+                        # a redirected regular file standing for a device node
+                        st = os.stat_result((statmod.S_IFCHR | 0o620,) + tuple(st[1:10]), {"st_rdev": rdev})
+                    return st
                 n = vk.node(r[1], r[2], p)
                 if isinstance(n, L):
                     if not follow:
